@@ -180,24 +180,36 @@ theorem finish_idle (s : State) (o : Nat) (x : Fin) (h : (s.oo o).busy = none) :
     finish s o x = (s, none, []) := by
   unfold finish; rw [h]
 
-/-- The owner record after `finish`. -/
+/-- The owner record after `finish` (`effResp` = the response the transaction
+completed with; it is `x.resp` unless the nested lock-owner transaction of a
+LOCK did not start). -/
 theorem finish_oo_same (s : State) (o : Nat) (x : Fin) (call : Nat) (r : Req) (h : (s.oo o).busy = some (call, r)) :
     (finish s o x).1.oo o =
       { (s.oo o) with
         busy := none
-        lastSeq := if shouldComplete x.resp.status then r.seq else (s.oo o).lastSeq
-        lastResp := if shouldComplete x.resp.status then some x.resp else (s.oo o).lastResp
-        closedFile := if shouldComplete x.resp.status then
-            (if (x.resp.status == 0) && r.kind == .close then some r.other else none) else (s.oo o).closedFile
-        lastDone := if shouldComplete x.resp.status then some (r, x.resp) else (s.oo o).lastDone
-        confirmed := (s.oo o).confirmed || ((x.resp.status == 0) && r.kind == .openConfirm) } := by
+        lastSeq := if shouldComplete (effResp s r x).status then r.seq else (s.oo o).lastSeq
+        lastResp := if shouldComplete (effResp s r x).status then some (effResp s r x) else (s.oo o).lastResp
+        closedFile := if shouldComplete (effResp s r x).status then
+            (if ((effResp s r x).status == 0) && r.kind == .close then some r.other else none) else (s.oo o).closedFile
+        lastDone := if shouldComplete (effResp s r x).status then some (r, effResp s r x) else (s.oo o).lastDone
+        confirmed := (s.oo o).confirmed || (((effResp s r x).status == 0) && r.kind == .openConfirm) } := by
   unfold finish; rw [h]; simp
 
 theorem finish_waiting (s : State) (o : Nat) (x : Fin) (call : Nat) (r : Req) (h : (s.oo o).busy = some (call, r)) :
     (finish s o x).1.waiting = s.waiting.filter (fun w => w.2 != o) ∧
     (finish s o x).2.2 = (s.waiting.filter (fun w => w.2 == o)).map (·.1) ∧
-    (finish s o x).2.1 = some (call, x.resp) := by
+    (finish s o x).2.1 = some (call, effReply s r x) := by
   unfold finish; rw [h]; simp
+
+theorem effResp_not_lock (s : State) (r : Req) (x : Fin) (h : r.kind ≠ .lock) : effResp s r x = x.resp := by
+  unfold effResp
+  have : (r.kind == Kind.lock) = false := by simpa using h
+  simp [this]
+
+theorem effReply_not_lock (s : State) (r : Req) (x : Fin) (h : r.kind ≠ .lock) : effReply s r x = .cached x.resp := by
+  unfold effReply
+  have : (r.kind == Kind.lock) = false := by simpa using h
+  simp [this]
 
 theorem inv_finish (s : State) (o : Nat) (x : Fin) (hinv : Inv s) : Inv (finish s o x).1 := by
   cases hb : (s.oo o).busy with
@@ -212,7 +224,7 @@ theorem inv_finish (s : State) (o : Nat) (x : Fin) (hinv : Inv s) : Inv (finish 
     · by_cases hk : k = o
       · subst hk
         rw [finish_oo_same s k x call r hb] at h ⊢
-        cases hs : shouldComplete x.resp.status
+        cases hs : shouldComplete (effResp s r x).status
         · simp only [hs, Bool.false_eq_true, if_false] at h; rw [hd] at h; cases h
         · simp only [hs, if_true, Option.some.injEq, Prod.mk.injEq] at h ⊢
           obtain ⟨h1, h2⟩ := h
